@@ -125,9 +125,15 @@ func VH_C03_companion_late_inflection() {
 		{Point{100, 45}, Point{80, 40}, Point{30, 50}, Point{0, 0}},
 		{Point{14, 95}, Point{71, 41}, Point{53, 34}, Point{1, 3}},
 		{Point{1, 3}, Point{53, 34}, Point{71, 41}, Point{14, 95}},
+		// two inflection points inside (0,1) (control polygon crossing itself), to be flattened at
+		// coarse tolerances for which the flat ranges around the two inflections overlap
+		{Point{0, 0}, Point{95, 80}, Point{5, 80}, Point{100, 0}},
+		{Point{0, 0}, Point{70, 60}, Point{-10, 70}, Point{60, 0}},
+		{Point{500, 400}, Point{10, 250}, Point{450, 10}, Point{120, 220}},
+		{Point{120, 220}, Point{450, 10}, Point{10, 250}, Point{500, 400}},
 	}
 	c := cs[vChoose(0, len(cs)-1)]
-	tol := []float64{1, 0.1, 0.01}[vChoose(0, 2)]
+	tol := []float64{1, 0.1, 0.01, 3, 8}[vChoose(0, 4)]
 	p := &Path{}
 	p.MoveTo(c.p0.X, c.p0.Y)
 	p.CubeTo(c.p1.X, c.p1.Y, c.p2.X, c.p2.Y, c.p3.X, c.p3.Y)
